@@ -616,3 +616,9 @@ func Produce(t *Target, in, dep string) map[string]tree.Tree {
 func OutAbs(root, pkg, p string) string {
 	return filepath.Join(root, filepath.FromSlash(pkg), filepath.FromSlash(p))
 }
+
+// GlobMatch reports whether the package-relative path matches the (doublestar) pattern.
+func GlobMatch(pattern, rel string) bool {
+	ok, _ := doublestar.Match(pattern, rel)
+	return ok
+}
